@@ -632,11 +632,21 @@ fn complete_root(n: usize) -> usize {
 /// Note: `complete binary tree` here refers to a tree in which all left subtrees
 ///       are perfect, which is a stronger assumption than just "complete".
 fn complete_parent(i: usize, n: usize) -> usize {
+    checked_complete_parent(i, n).expect("node must not be the root of the tree")
+}
+
+/// Returns the parent index of a node at index `i` in a complete binary tree of size `n`, or
+/// `None` if `i` has no parent inside the tree (i.e. if `i` is the root).
+fn checked_complete_parent(i: usize, n: usize) -> Option<usize> {
     let mut i = i;
     loop {
+        // `usize::MAX` is the root of the largest representable perfect tree and has no parent.
+        if i == usize::MAX {
+            break None;
+        }
         i = perfect_parent(i);
         if i < n {
-            break i;
+            break Some(i);
         }
     }
 }
@@ -699,8 +709,9 @@ fn is_branch(i: usize) -> bool {
 /// `j` is said to fall inside the tree if `j < n`.
 #[inline]
 fn is_leaf_index_in_tree(i: usize, n: usize) -> bool {
-    let j = leaf_index_to_tree_index(i);
-    is_tree_index_in_tree(j, n)
+    // A leaf index whose tree index `2 * i` overflows cannot be inside any tree.
+    i.checked_mul(2)
+        .is_some_and(|j| is_tree_index_in_tree(j, n))
 }
 
 /// Returns if a tree index `i` is part of  tree.
